@@ -39,7 +39,7 @@ def simple_source(doc, kind):
     raise ValueError(kind)
 
 
-def call(thunk, faults=None, norm=None, retain=None):
+def call(thunk, faults=None, norm=None, retain=None, graph=False):
     """Run thunk() inside a fresh OpContext; returns (outcome dict, ctx).
 
     outcome: {'status': 'ok', 'value': canon} | {'status': 'exc', 'exc': qualname,
@@ -53,7 +53,8 @@ def call(thunk, faults=None, norm=None, retain=None):
     try:
         try:
             v = thunk()
-            out = {'status': 'ok', 'value': canon.canon(v)}
+            # graph=True: also which sub-objects of the result are one and the same object
+            out = {'status': 'ok', 'value': canon.canon_graph(v) if graph else canon.canon(v)}
         except Exception as e:
             name, toks = canon.canon_exc(e, norm)
             out = {'status': 'exc', 'exc': name, 'msg': toks,
